@@ -584,12 +584,56 @@ def run(ctx):
             ctx.validated()
         pending.clear(); reqs.clear()
 
+    def run_u32(insts):
+        big = []
+        for inst in insts:
+            ctx.inflight({"instance": {**model_inst(inst), "mode": inst["mode"], "use_positions": True}, "stream": "u32"})
+            impl = run_cost_only(inst)
+            big.append((reorder(inst, impl["order"]), impl))
+        breqs = []
+        for inst, impl in big:
+            breqs.append({"op": "c01.cost32", "raw": impl["raw"]})
+            breqs.append({"op": "c01.cost", "raw": impl["raw"]})
+        bans = ask_bounded(ctx.model, breqs)
+        for n, (inst, impl) in enumerate(big):
+            a32, aex = bans[2 * n], bans[2 * n + 1]
+            ctx.evaluated()
+            case = {"instance": {**model_inst(inst), "mode": inst["mode"], "use_positions": True}, "stream": "u32"}
+            got = "mendelian-conflict" if "error" in impl else impl["cost"]
+            if isinstance(got, int) and got < 0:
+                # F30: `get_optimal_score()` returns `unsigned int`, cpp.pxd declared it `int`
+                ctx.fail(f"get_optimal_cost() returned the negative number {got} (the optimum is {aex['cost']})", case,
+                         key="F30-cost-reported-negative")
+                got %= 2 ** 32            # the C++ value, for the comparisons below
+            want32 = "mendelian-conflict" if a32["throws"] else a32["cost32"]
+            exact = "mendelian-conflict" if aex["cost"] is None else aex["cost"]
+            safe = a32["ub"] < 2 ** 32 - 1
+            ctx.dist("u32_bound", "ubAll < UINT_MAX" if safe else "ubAll >= UINT_MAX")
+            if got != want32:
+                ctx.disagree("c01.cost32", case, got, a32)
+            if safe:
+                if want32 != exact:
+                    ctx.disagree("c01.cost32(no_overflow: 32-bit model vs unbounded model below the bound)", case, exact, a32)
+                if got != exact:
+                    ctx.fail(f"cost sums stay below UINT_MAX (bound {a32['ub']}) but the reported result {got} is not the "
+                             f"optimum {exact}", case, key="not-optimal")
+                ctx.validated()
+            elif got != exact:
+                ctx.dist("u32_beyond_bound", "wrapped (result differs from the optimum)")
+                ctx.observe("32-bit overflow beyond the proved bound: solver result differs from the true optimum "
+                            "(as the wrap-around model predicts)")
+            else:
+                ctx.dist("u32_beyond_bound", "still exact")
+
     # ---- replay / corpus
     cases = [c for _, c in ctx.corpus()]
     if ctx.replay:
         cases = [json.load(open(ctx.replay))["case"]]
     for c in cases:
         inst = c["instance"]
+        if c.get("stream") == "u32":
+            run_u32([inst])
+            continue
         small = len(inst["reads"]) <= 6 and inst["ncols"] <= 4 and len(inst["trios"]) <= 1
         submit(inst, brute=small)
     flush()
@@ -620,46 +664,7 @@ def run(ctx):
 
     # ---- 32-bit arithmetic: cost sums around 2^32.  Below the bound `ubAll < UINT_MAX` (theorem `no_overflow`) the
     # real cost must be the exact optimum; everywhere it must be what the wrap-around model `dpCost32`/`throws32` says
-    big = []
-    for _ in range((150 if ctx.quick else 3000) * ctx.scale):
-        inst = gen_big(rng)
-        ctx.inflight({"instance": {**model_inst(inst), "mode": inst["mode"], "use_positions": True}, "stream": "u32"})
-        impl = run_cost_only(inst)
-        big.append((reorder(inst, impl["order"]), impl))
-    breqs = []
-    for inst, impl in big:
-        breqs.append({"op": "c01.cost32", "raw": impl["raw"]})
-        breqs.append({"op": "c01.cost", "raw": impl["raw"]})
-    bans = ask_bounded(ctx.model, breqs)
-    for n, (inst, impl) in enumerate(big):
-        a32, aex = bans[2 * n], bans[2 * n + 1]
-        ctx.evaluated()
-        case = {"instance": {**model_inst(inst), "mode": inst["mode"], "use_positions": True}, "stream": "u32"}
-        got = "mendelian-conflict" if "error" in impl else impl["cost"]
-        if isinstance(got, int) and got < 0:
-            # F30: `get_optimal_score()` returns `unsigned int`, cpp.pxd declared it `int`
-            ctx.fail(f"get_optimal_cost() returned the negative number {got} (the optimum is {aex['cost']})", case,
-                     key="F30-cost-reported-negative")
-            got %= 2 ** 32            # the C++ value, for the comparisons below
-        want32 = "mendelian-conflict" if a32["throws"] else a32["cost32"]
-        exact = "mendelian-conflict" if aex["cost"] is None else aex["cost"]
-        safe = a32["ub"] < 2 ** 32 - 1
-        ctx.dist("u32_bound", "ubAll < UINT_MAX" if safe else "ubAll >= UINT_MAX")
-        if got != want32:
-            ctx.disagree("c01.cost32", case, got, a32)
-        if safe:
-            if want32 != exact:
-                ctx.disagree("c01.cost32(no_overflow: 32-bit model vs unbounded model below the bound)", case, exact, a32)
-            if got != exact:
-                ctx.fail(f"cost sums stay below UINT_MAX (bound {a32['ub']}) but the reported result {got} is not the "
-                         f"optimum {exact}", case, key="not-optimal")
-            ctx.validated()
-        elif got != exact:
-            ctx.dist("u32_beyond_bound", "wrapped (result differs from the optimum)")
-            ctx.observe("32-bit overflow beyond the proved bound: solver result differs from the true optimum "
-                        "(as the wrap-around model predicts)")
-        else:
-            ctx.dist("u32_beyond_bound", "still exact")
+    run_u32([gen_big(rng) for _ in range((150 if ctx.quick else 3000) * ctx.scale)])
 
     # ---- table-based column cost == direct column cost (the incremental table of the code)
     tab_reqs, tab_meta = [], []
